@@ -123,3 +123,16 @@ pub fn enc_warning(w: &Warning) -> String {
 pub fn enc_warnings(ws: &[Warning]) -> String {
     ws.iter().map(enc_warning).collect::<Vec<_>>().join(",")
 }
+
+/// Inverse of `enc_constraint`.
+pub fn dec_constraint(s: &str) -> Option<Constraint> {
+    let t: Vec<&str> = s.split(' ').filter(|x| !x.is_empty()).collect();
+    let shape = crate::gen_sys::SHAPES.iter().find(|n| **n == t[0])?;
+    let (ni, np) = crate::gen_sys::shape_arity(shape);
+    if t.len() != 1 + ni + np {
+        return None;
+    }
+    let ids: Vec<u32> = t[1..1 + ni].iter().map(|x| x.parse().ok()).collect::<Option<Vec<_>>>()?;
+    let params: Vec<f64> = t[1 + ni..].iter().map(|x| x.parse::<u64>().ok().map(f64::from_bits)).collect::<Option<Vec<_>>>()?;
+    Some(crate::gen_sys::build(shape, &ids, &params))
+}
